@@ -500,6 +500,106 @@ func concCase(seed uint64, idx int, flush bool) *CaseSpec {
 	}}
 }
 
+
+// concElectionDuringOp: an operation of the primary is held at the point where the RIB has
+// changed and its result has not been handed back yet (the post-change hook), another session
+// announces a higher election id meanwhile, the operation goes on. Whatever the server answers,
+// at quiescence the entry is installed exactly if the operation was acknowledged as programmed.
+func concElectionDuringOp() *CaseSpec {
+	name := "conc/corpus/election-during-operation"
+	run := func(keep []int) (*Trace, error) {
+		t := &Trace{}
+		t.Add("begin %s", name)
+		cfg := &SrvCfg{Fwd: true, Hook: true, VRFs: []string{"VRF1"}, Default: "DEFAULT"}
+		h, err := NewSrvH(cfg)
+		if err != nil {
+			return t, err
+		}
+		t.Add("srv.new %s fwd=1 hook=0 %s", S(cfg.Default), LS(cfg.VRFs))
+		fail := func(msg string) (*Trace, error) {
+			t.Add("conc.result 0 %s", S(msg))
+			t.Add("end")
+			return t, nil
+		}
+		for c := 1; c <= 2; c++ {
+			if err := h.Connect(c); err != nil {
+				return t, err
+			}
+			o := h.Send(c, &spb.ModifyRequest{Params: &spb.SessionParameters{Redundancy: spb.SessionParameters_SINGLE_PRIMARY, Persistence: spb.SessionParameters_PRESERVE}})
+			if o.Ended || o.Hang {
+				return fail("negotiation failed")
+			}
+		}
+		idA, idB := &spb.Uint128{Low: 1}, &spb.Uint128{Low: 2}
+		if o := h.Send(1, &spb.ModifyRequest{ElectionId: idA}); o.Ended || o.Hang {
+			return fail("election-during-operation: the first announcement was not answered")
+		}
+		nh := func(id, idx uint64) *spb.ModifyRequest {
+			return &spb.ModifyRequest{Operation: []*spb.AFTOperation{{Id: id, NetworkInstance: "DEFAULT", Op: spb.AFTOperation_ADD, ElectionId: idA,
+				Entry: &spb.AFTOperation_NextHop{NextHop: &aftpb.Afts_NextHopKey{Index: idx, NextHop: &aftpb.Afts_NextHop{IpAddress: sv("10.0.0.1")}}}}}}
+		}
+		if o := h.Send(1, nh(1, 1)); o.Ended || o.Hang {
+			return fail("election-during-operation: the first operation was not answered")
+		}
+		parked, release := make(chan struct{}), make(chan struct{})
+		var once sync.Once
+		h.hooks.mu.Lock()
+		h.hooks.park = func() {
+			once.Do(func() {
+				close(parked)
+				select {
+				case <-release:
+				case <-time.After(wd(3 * time.Second)):
+				}
+			})
+		}
+		h.hooks.mu.Unlock()
+		outc := make(chan MsgOutcome, 1)
+		go func() { outc <- h.Send(1, nh(2, 2)) }()
+		select {
+		case <-parked:
+		case <-time.After(wd(3 * time.Second)):
+			close(release)
+			return fail("election-during-operation: the post-change hook was not called for an ADD that installs an entry")
+		}
+		// the other session announces a higher id while the operation is held
+		_, answered := h.SendLite(2, &spb.ModifyRequest{ElectionId: idB})
+		close(release)
+		var o MsgOutcome
+		select {
+		case o = <-outc:
+		case <-time.After(wd(5 * time.Second)):
+			return fail("election-during-operation: the held operation was never answered (hang)")
+		}
+		if !answered {
+			// the announcement had to wait for the operation: allowed; it is answered now or never
+			if _, ok := h.SendLite(2, &spb.ModifyRequest{ElectionId: idB}); !ok {
+				return fail("election-during-operation: the announcement of the other session was not answered")
+			}
+		}
+		acked := false
+		for _, r := range o.Resps {
+			for _, x := range r.GetResult() {
+				if x.GetId() == 2 && x.GetStatus() == spb.AFTResult_RIB_PROGRAMMED {
+					acked = true
+				}
+			}
+		}
+		c, cerr := h.S.VerifRIB().RIBContents()
+		if cerr != nil {
+			return t, cerr
+		}
+		_, installed := c["DEFAULT"].GetAfts().NextHop[2]
+		if installed != acked {
+			return fail(fmt.Sprintf("election-during-operation: at quiescence next-hop 2 installed=%v but acknowledged as programmed=%v (its ADD overlapped another session's announcement of a higher election id)", installed, acked))
+		}
+		t.Add("conc.result 1 %s 0", S("election-during-operation"))
+		t.Add("end")
+		return t, nil
+	}
+	return &CaseSpec{Name: name, N: 1, Run: run, Inputs: func() []string { return []string{name} }}
+}
+
 func init() {
 	modes["conc"] = &Mode{
 		Name: "conc",
@@ -512,6 +612,7 @@ func init() {
 			}
 			return 24
 		},
+		Corpus:   func() []*CaseSpec { return []*CaseSpec{concElectionDuringOp()} },
 		Required: []string{"conc.ok"},
 		Serial:   true,
 		Atomic:   true,
